@@ -14,8 +14,19 @@
    P_layout . (padded input): exactly (Gaussian integers) for pipelines without unroller, up to a
    global phase with tolerance 1e-7 for pipelines with an unroller (that part is a TEST, labelled);
    measured registers are compared by name / logical qubits and by exact outcome distributions.
+3. every pipeline SHAPE (no router; placer only; router only; with / without Preprocessing; unroller only; empty):
+   the returned final layout must be None / the identity placement when no router ran (C11/PropsLayout.v:
+   no_router_final_layout_none, no_router_pipeline_ok) and, whenever it is a dict, out = P_layout . in.
+4. execution through the GLOBAL transpiler (qibo.set_backend(<provider of a hardware-like backend>) -> default
+   transpiler; qibo.set_transpiler(Passes(...))): histories of set_parameters / gate.parameters / add / wire_names /
+   measure / set_transpiler on ONE circuit executed repeatedly with circuit(); every result (state mapped back
+   through the observed layout, register outcome distributions, sampled frequencies) is compared with a
+   from-scratch reference of the current abstract state (TEST with tolerance 1e-7); global state always restored.
+5. inputs deep-snapshotted around every Passes call (circuit attributes, init_kwargs, gate objects, device graph),
+   outputs of earlier calls of a history re-compared after later calls; circuits with wire-name set/reset
+   histories (shared generator with C09).
 """
-STATIC = ["C11/Props", "C11/ModelCheck", "C09/Props"]
+STATIC = ["C11/Props", "C11/PropsLayout", "C11/ModelCheck", "C09/Props"]
 import itertools
 import json
 import random
@@ -53,11 +64,8 @@ def build_gate(g):
 
 
 def build_circuit(spec):
-    from qibo import Circuit
-    c = Circuit(spec["k"], wire_names=list(spec["wire_names"]))
-    for g in spec["gates"]:
-        c.add(build_gate(g))
-    return c
+    """spec["attr"] (optional): history of attribute operations on the circuit object before it is transpiled (see c09.build_circuit)"""
+    return R.build_circuit(spec, mk=build_gate)
 
 
 def device_graph(spec):
@@ -218,10 +226,17 @@ def phase_equal(A, B, exact):
     return bool(np.abs(A - ph * B).max() < TOL)
 
 
-def register_distribution(T, n, qubits):
-    """outcome distribution of measuring `qubits` (in that order) on the state T|0...0>"""
+def register_distribution(T, n, qubits, exact=False):
+    """outcome distribution of measuring `qubits` (in that order) on the state T|0...0>.
+    exact: the amplitudes are Gaussian integers below 2^50; the (unnormalised) weights are then computed with
+    Python integers (float sums of squares up to 2^100 would depend on the summation order)"""
     psi = T[..., 0]
-    p = np.abs(psi) ** 2
+    if exact:
+        re = np.round(psi.real).astype(np.int64).astype(object)
+        im = np.round(psi.imag).astype(np.int64).astype(object)
+        p = re * re + im * im
+    else:
+        p = np.abs(psi) ** 2
     rest = tuple(a for a in range(n) if a not in qubits)
     m = p.sum(axis=rest) if rest else p
     # bring to the register's own qubit order
@@ -307,6 +322,8 @@ def run_pipeline(spec, timeout=30.0, prebuilt=None):
     info = {"circuit": circuit, "passes": P, "nat": nat}
     before = R.queue_canon(circuit)
     wires0 = list(circuit.wire_names)
+    snap0 = R.circ_snapshot(circuit)
+    graph0 = None if P.connectivity is None else R.graph_snapshot(P.connectivity)
     with PassLog() as pl:
         try:
             out, layout = R.with_timeout(timeout, P, circuit)
@@ -316,9 +333,24 @@ def run_pipeline(spec, timeout=30.0, prebuilt=None):
         except Exception as e:  # noqa
             info["error"] = f"{type(e).__name__}: {e}"
     info["log"] = pl.log
-    info["input_mutated"] = before != R.queue_canon(circuit)
+    # deep snapshot of the inputs: attributes, init_kwargs, gate objects (identity and content), the device graph.
+    # A placer renames a FULL-SIZE input circuit in place (documented behaviour of placers): only then may the wire
+    # names (and their copy in init_kwargs) differ
+    diff = set(R.snapshot_diff(snap0, R.circ_snapshot(circuit)))
+    if spec["pipeline"].get("placer") and P.connectivity is not None and spec["k"] == P.connectivity.number_of_nodes():
+        diff -= {"wires", "kw"}
+    info["input_mutated"] = before != R.queue_canon(circuit) or bool(diff)
+    info["input_diff"] = sorted(diff)
+    info["graph_mutated"] = graph0 is not None and graph0 != R.graph_snapshot(P.connectivity)
     info["input_wires_changed"] = wires0 != list(circuit.wire_names)
+    if "out" in info:
+        info["out_snap"] = _out_snapshot(info)
     return info
+
+
+def _out_snapshot(info):
+    lay = info["layout"]
+    return (R.circ_snapshot(info["out"]), sorted((repr(k_), v) for k_, v in lay.items()) if isinstance(lay, dict) else repr(lay))
 
 
 def end_to_end(spec, info):
@@ -327,6 +359,8 @@ def end_to_end(spec, info):
     bad = []
     pl = spec["pipeline"]
     tag = f"{(pl.get('placer') or ['none'])[0]}+{(pl.get('router') or ['none'])[0]}+{pl.get('natives') or 'none'}"
+    if not pl.get("pre", True):
+        tag = "nopre+" + tag
     if info.get("timeout"):
         return [("timeout:" + tag, "pipeline did not terminate", {})]
     if "error" in info:
@@ -344,7 +378,11 @@ def end_to_end(spec, info):
     n = len(nodes)
     exact = nat is None
     if info["input_mutated"]:
-        bad.append(("mutates_input:" + tag, "the pipeline changed the input circuit", {}))
+        bad.append(("mutates_input:" + tag, f"the pipeline changed the input circuit (fields {info.get('input_diff')})", {}))
+    if info.get("graph_mutated"):
+        bad.append(("mutates_graph:" + tag, "the pipeline changed the connectivity graph of the Passes object", {}))
+    if info.get("later_change"):
+        bad.append(("output_changed_by_later_call:" + tag, "the circuit / final layout RETURNED by this call changed during later calls of the same passes", {}))
     for key, what in check_passes(spec, info["log"], nodes, edges, nat, exact, out):
         bad.append((key, what, {}))
     # acceptance check
@@ -378,7 +416,31 @@ def end_to_end(spec, info):
             return bad
         l2p = [layout[w] for w in wn]
     else:
+        # no router ran: no SWAP can have been inserted, so no logical qubit moved.  The code documents/returns
+        # None; the identity placement {wire_names[i]: i} says the same and is accepted
         l2p = list(range(out.nqubits))
+        info["layout_norm"] = None
+        if layout is not None:
+            ident = {w: i for i, w in enumerate(wn)}
+            if not (isinstance(layout, dict) and dict(layout) == ident):
+                info["layout_norm"] = "wrong"
+                ltag = ("" if pl.get("pre", True) else "nopre+") + (pl.get("placer") or ["none"])[0]
+                bad.append(("layout_no_router:" + ltag,
+                            f"no router in the pipeline (no SWAP inserted) but the returned final layout {layout} is neither None nor the "
+                            f"identity placement on the output wire names {wn}", {"layout": str(layout)}))
+                if isinstance(layout, dict) and set(layout) == set(wn) and sorted(layout.values()) == list(range(len(wn))):
+                    l2p_claimed = [layout[w] for w in wn]
+                    try:
+                        U_ = R.exact_operator(circuit.queue, out.nqubits)
+                        V_ = R.exact_operator(out.queue, out.nqubits)
+                        if not phase_equal(V_, R.permuted(U_, l2p_claimed, out.nqubits), nat is None and R.is_integral(U_) and R.is_integral(V_)):
+                            bad.append(("operator_through_layout:" + ltag, "output read through the RETURNED final layout is not the padded input", {"l2p": l2p_claimed}))
+                    except OverflowError:
+                        pass
+        if spec.get("on_edges") and nat is not None and pl.get("pre", True) and not pl.get("placer"):
+            if not P.is_satisfied(out):
+                bad.append(("is_satisfied_no_router:" + tag, "every two-qubit gate of the input lies on a device edge (through the wire names), the pipeline pads and "
+                            "unrolls, but Passes.is_satisfied rejects the output", {}))
     info["l2p"] = l2p
     # padding keeps own wires (end to end, only meaningful without placer)
     if not pl.get("placer") and list(wn[:spec["k"]]) != list(spec["wire_names"]):
@@ -404,8 +466,8 @@ def end_to_end(spec, info):
             Us = R.exact_operator([g for g in circuit.queue if not isinstance(g, gates.M)], nn)
             Vs = R.exact_operator([g for g in out.queue if not isinstance(g, gates.M)], nn)
             for m_in, m_out in zip(circuit.measurements, out.measurements):
-                d1 = register_distribution(Us, nn, tuple(m_in.qubits))
-                d2 = register_distribution(Vs, nn, tuple(m_out.qubits))
+                d1 = register_distribution(Us, nn, tuple(m_in.qubits), exact=ex)
+                d2 = register_distribution(Vs, nn, tuple(m_out.qubits), exact=ex)
                 same = np.array_equal(d1, d2) if ex else np.allclose(d1, d2, atol=TOL)
                 if not same:
                     bad.append((f"{classify(spec) or 'outcomes'}:{tag}", f"register {m_in.register_name}: outcome distribution differs", {}))
@@ -510,6 +572,107 @@ def make_cases(tier, rng):
     return cases
 
 
+def make_shape_cases(tier, rng):
+    """EVERY pipeline shape, in particular those in which no router runs: [], [Pre], [Pre, Unroller], [Pre, placer],
+    [Pre, placer, Unroller], [Unroller], [placer], [router], [router, Unroller], [placer, router]; circuits on permuted /
+    out-of-order-subset / string / integer wire names.  For router-less shapes half of the circuits have all two-qubit
+    gates on device edges (through the wire names), so that the padded (+unrolled) circuit is executable"""
+    cases = []
+    reps = 1 if tier == "quick" else 4
+    shapes = [dict(pre=True, placer=False, router=False, nat=False), dict(pre=True, placer=False, router=False, nat=True),
+              dict(pre=True, placer=True, router=False, nat=False), dict(pre=True, placer=True, router=False, nat=True),
+              dict(pre=False, placer=False, router=False, nat=True), dict(pre=False, placer=False, router=False, nat=False),
+              dict(pre=False, placer=True, router=False, nat=False), dict(pre=False, placer=False, router=True, nat=False),
+              dict(pre=False, placer=False, router=True, nat=True), dict(pre=False, placer=True, router=True, nat=False)]
+    nat_names = list(native_sets().keys())
+    for _ in range(reps):
+        for devname, g0 in devices(rng, tier):
+            n = g0.number_of_nodes()
+            placers, routers = pipelines_for(devname, n, rng)
+            placers = [p_ for p_ in placers if p_]
+            for si, sh in enumerate(shapes):
+                for variant in range(2):
+                    how = ["perm", "str", "id", "mixed", "sparse"][(si + variant) % 5]
+                    g = R.label_variants(g0, rng, how)
+                    nodes = list(g.nodes())
+                    full = (not sh["pre"]) and (sh["placer"] or sh["router"])
+                    k = n if (full or variant == 0) else rng.randint(2, n - 1)
+                    wn = rng.sample(nodes, k)
+                    if wn == nodes[:k]:
+                        wn = wn[::-1]                       # certainly out of device order
+                    placer = rng.choice(placers) if sh["placer"] else None
+                    router = rng.choice(routers) if sh["router"] else None
+                    natn = rng.choice(nat_names) if sh["nat"] else None
+                    on_edges = (not sh["router"]) and rng.random() < 0.6
+                    pos = {w: i for i, w in enumerate(wn)}
+                    epairs = [(pos[a], pos[b]) for a, b in g.edges() if a in pos and b in pos]
+                    ng = rng.randint(2, 8)
+                    gs = R.gen_gates(rng, k, ng, pmid=0) if natn is None else gen_float_gates(rng, k, ng, G2_CNOT if natn == "U3_CNOT" else G2)
+                    if on_edges:
+                        if not epairs:
+                            gs = [x for x in gs if len(x[1]) < 2]
+                        for x in gs:
+                            if len(x[1]) == 2:
+                                a, b = rng.choice(epairs)
+                                x[1] = [a, b] if rng.random() < 0.5 else [b, a]
+                    need2 = 2 if (placer and placer[0] == "Subgraph") else (1 if placer and placer[0] == "ReverseTraversal" else 0)
+                    while sum(1 for x in gs if len(x[1]) == 2 and x[0] != "M") < need2:
+                        a, b = rng.choice(epairs) if (on_edges and epairs) else rng.sample(range(k), 2)
+                        gs.insert(rng.randrange(len(gs) + 1), ["CZ", [a, b], {}])
+                    if not gs:
+                        gs = [["X", [0], {}]]
+                    if rng.random() < 0.6:
+                        gs += R.gen_trailing(rng, k)
+                    spec = dict(nodes=nodes, edges=[list(e) for e in g.edges()], on_qubits=None, k=k, wire_names=wn, gates=gs,
+                                on_edges=bool(on_edges and not sh["placer"]),
+                                pipeline={"pre": sh["pre"], "placer": placer, "router": router, "natives": natn})
+                    cases.append((devname, spec))
+    return cases
+
+
+def make_attr_cases(tier, rng):
+    """family A: the circuit's wire names were set and reset (constructor / setter / None) and the circuit was copied /
+    deep-copied / added before it is transpiled; half of the cases end with `circuit.wire_names = None` on an
+    integer-labelled device"""
+    cases = []
+    nc = 40 if tier == "quick" else 200
+    devs = devices(rng, tier)
+    nat_names = [None, None, "default", "U3_CZ"]
+    for i in range(nc):
+        devname, g0 = devs[i % len(devs)]
+        n = g0.number_of_nodes()
+        placers, routers = pipelines_for(devname, n, rng)
+        placer = rng.choice([None, None] + placers)
+        router = rng.choice(routers + [None])
+        natn = rng.choice(nat_names)
+        if i % 2 == 0:
+            g = g0 if i % 4 == 0 else R._relabel(g0, rng.sample(range(n), n))
+            nodes = list(g.nodes())
+            k = rng.choice([3, 4, 5]) if devname == "star5" else rng.randint(2, n)
+            wn = list(range(k))                       # live names = default names at transpile time
+        else:
+            g = R.label_variants(g0, rng, rng.choice(["perm", "str", "mixed"]))
+            nodes = list(g.nodes())
+            k = rng.choice([3, 4, 5]) if devname == "star5" else rng.randint(2, n)
+            wn = rng.sample(nodes, k)
+        ng = rng.randint(2, 8)
+        gs = R.fix_mid_measurements(R.gen_gates(rng, k, ng, pmid=0), rng) if natn is None else gen_float_gates(rng, k, ng, G2)
+        need2 = 2 if (placer and placer[0] == "Subgraph") else (1 if placer and placer[0] == "ReverseTraversal" else 0)
+        while sum(1 for x in gs if len(x[1]) == 2 and x[0] != "M") < need2:
+            a, b = rng.sample(range(k), 2)
+            gs.insert(rng.randrange(len(gs) + 1), ["CZ", [a, b], {}])
+        nb = len(gs)
+        if rng.random() < 0.6:
+            gs += R.gen_trailing(rng, k)
+        attr = R.attr_history(rng, k, wn, len(gs), must_reset=(i % 2 == 0))
+        attr["dm"] = False
+        attr["split"] = min(attr["split"], nb)
+        spec = dict(nodes=nodes, edges=[list(e) for e in g.edges()], on_qubits=None, k=k, wire_names=wn, gates=gs, attr=attr,
+                    pipeline={"pre": True, "placer": placer, "router": router, "natives": natn})
+        cases.append((devname, spec))
+    return cases
+
+
 def make_histories(tier, rng):
     """ONE Passes object called on a sequence of 2-4 circuits with different wire-name subsets /
     permutations (state kept by the passes between calls must not leak into the next call).
@@ -585,6 +748,9 @@ def run_history(hspec, timeout=30.0):
         else:
             use = pre
         res.append((sp, run_pipeline(sp, timeout=timeout, prebuilt=use)))
+    for sp, info in res:
+        if "out_snap" in info and _out_snapshot(info) != info["out_snap"]:
+            info["later_change"] = True
     return res
 
 
@@ -915,6 +1081,341 @@ def default_transpiler_cases(run, found, stats, rng, only=None):
         _Global._backend, _Global._transpiler = saved
 
 
+# ------------------------------------------------------------------ execution through the GLOBAL transpiler
+HW_MODULE = "verif_hwlike_provider"
+G1P = [("RX", 1), ("RY", 1), ("RZ", 1), ("U1", 1), ("GPI2", 1), ("U3", 3)]
+G2P = [("CRX", 1), ("CRZ", 1), ("CU1", 1), ("RZZ", 1), ("RXX", 1)]
+G1F = ["H", "X", "Y", "S", "T", "SX"]
+G2F = ["CNOT", "CZ", "SWAP", "iSWAP"]
+SPECIAL_ANGLES = [0.0, 3.141592653589793, 1.5707963267948966, -3.141592653589793, 1e-3]
+
+
+def _angle(rng):
+    return rng.choice(SPECIAL_ANGLES) if rng.random() < 0.4 else round(rng.uniform(-3, 3), 3)
+
+
+def _rand_gate(rng, k, param=None):
+    two = k >= 2 and rng.random() < 0.5
+    if param is None:
+        param = rng.random() < 0.6
+    if param:
+        name, npar = rng.choice(G2P if two else G1P)
+        return [name, rng.sample(range(k), 2) if two else [rng.randrange(k)], {"p": [_angle(rng) for _ in range(npar)]}]
+    return [rng.choice(G2F if two else G1F), rng.sample(range(k), 2) if two else [rng.randrange(k)], {}]
+
+
+def _registers(rng, k):
+    qs = rng.sample(range(k), rng.randint(1, k))
+    out, i, r = [], 0, 0
+    while i < len(qs):
+        w = rng.randint(1, 3)
+        out.append([qs[i:i + w], f"r{r}"])
+        i += w
+        r += 1
+    return out
+
+
+def global_histories(tier, rng):
+    """histories of operations on ONE circuit object that is executed through circuit() while a non-trivial GLOBAL
+    transpiler is installed (the default transpiler of a hardware-like backend registered through the provider
+    mechanism of qibo.set_backend, or qibo.set_transpiler(Passes(...)))"""
+    out = []
+    nh = 40 if tier == "quick" else 200
+    devs = [("line3", nx.path_graph(3)), ("line4", nx.path_graph(4)), ("star5", nx.star_graph(4)), ("ring4", nx.cycle_graph(4)),
+            ("tee5", nx.Graph([(0, 1), (1, 2), (2, 3), (2, 4)])), ("line5", nx.path_graph(5))]
+    # RZ / Z / I are always assumed native by the unroller (virtual Z); CNOT-only sets have a reduced gate table: both
+    # are preconditions of the existing streams as well
+    hw_natives = [["CZ", "GPI2", "RZ", "Z", "I", "M"], ["iSWAP", "U3", "RZ", "Z", "I", "M"], ["CZ", "U3", "RZ", "Z", "I", "M"],
+                  ["CZ", "iSWAP", "GPI2", "RZ", "Z", "I", "M"]]
+    for h in range(nh):
+        devname, g0 = devs[h % len(devs)]
+        g = R.label_variants(g0, rng, ["id", "str", "perm", "mixed"][(h // len(devs)) % 4])
+        nodes = list(g.nodes())
+        n = len(nodes)
+        mode = "hwlike" if h % 2 == 0 else "set_transpiler"
+        placers, routers = pipelines_for(devname, n, rng)
+
+        def rand_pipeline():
+            pl = {"pre": True, "placer": rng.choice([None, None] + placers), "router": rng.choice(routers + routers + [None]),
+                  "natives": rng.choice([None, "default", "U3_CZ", "GPI2_iSWAP", "U3_iSWAP"])}
+            if pl["router"] is None and pl["natives"] is None and pl["placer"] is None:
+                pl["natives"] = "default"
+            return pl
+
+        hist = {"mode": mode, "device": devname, "nodes": nodes, "edges": [list(e) for e in g.edges()]}
+        if mode == "hwlike":
+            hist["natives"] = rng.choice(hw_natives)
+            cur_pl = {"pre": True, "placer": None, "router": ["Sabre", {}], "natives": "hw"}
+        else:
+            cur_pl = rand_pipeline()
+            hist["pipeline"] = cur_pl
+        k = rng.choice([3, 4, 5]) if devname == "star5" else rng.randint(2, n)
+        wn = rng.sample(nodes, k)
+        if h % 3 == 0 and wn == nodes[:k]:
+            wn = wn[::-1]
+        gs = [_rand_gate(rng, k) for _ in range(rng.randint(2, 6))]
+        gs.insert(rng.randrange(len(gs) + 1), _rand_gate(rng, k, param=True))
+        # Subgraph needs two two-qubit gates, ReverseTraversal one (documented preconditions): always provide them
+        while sum(1 for x in gs if len(x[1]) == 2) < 2:
+            a, b = rng.sample(range(k), 2)
+            gs.insert(rng.randrange(len(gs) + 1), [rng.choice(G2F), [a, b], {}])
+        hist.update(k=k, wire_names=wn, gates=gs)
+        ops = [["exec"]]
+        measured = False
+        npar = sum(1 for x in gs if "p" in x[2])
+        pars = [len(x[2]["p"]) for x in gs if "p" in x[2]]
+        for _ in range(rng.randint(2, 5)):
+            r = rng.random()
+            if r < 0.35:
+                ops.append(["set_parameters", [[_angle(rng) for _ in range(m)] for m in pars]])
+            elif r < 0.5:
+                j = rng.randrange(npar)
+                ops.append(["gate_param", j, [_angle(rng) for _ in range(pars[j])]])
+            elif r < 0.65 and not measured:
+                gnew = _rand_gate(rng, k)
+                ops.append(["add", gnew])
+                if "p" in gnew[2]:
+                    npar += 1
+                    pars.append(len(gnew[2]["p"]))
+            elif r < 0.8:
+                new = rng.sample(nodes, k)
+                if set(range(k)) <= set(nodes) and rng.random() < 0.3:
+                    new = None
+                ops.append(["wire_names", new])
+            elif r < 0.9 and not measured:
+                ops.append(["measure", _registers(rng, k)])
+                measured = True
+            elif mode == "set_transpiler":
+                ops.append(["set_transpiler", rand_pipeline()])
+            else:
+                ops.append(["set_parameters", [[_angle(rng) for _ in range(m)] for m in pars]])
+            ops.append(["exec"])
+        hist["ops"] = ops
+        out.append(hist)
+    return out
+
+
+def _install_global(hist):
+    """install the global backend / transpiler of a history through the PUBLIC interface"""
+    import sys
+    import types
+    import qibo
+    from qibo.backends import NumpyBackend
+    if hist["mode"] == "hwlike":
+        qs, conn, nat = list(hist["nodes"]), [tuple(e) for e in hist["edges"]], list(hist["natives"])
+
+        class HardwareLike(NumpyBackend):
+            def __init__(self):
+                super().__init__()
+                self.name = "verif-hwlike"
+
+            @property
+            def qubits(self):
+                return qs
+
+            @property
+            def connectivity(self):
+                return conn
+
+            @property
+            def natives(self):
+                return nat
+
+        class MetaBackend:
+            @staticmethod
+            def load(**kwargs):
+                return HardwareLike()
+
+        mod = types.ModuleType(HW_MODULE)
+        mod.MetaBackend = MetaBackend
+        sys.modules[HW_MODULE] = mod
+        qibo.set_backend(HW_MODULE)
+    else:
+        qibo.set_backend("numpy")
+        qibo.set_transpiler(build_passes(dict(nodes=hist["nodes"], edges=hist["edges"], on_qubits=None, pipeline=hist["pipeline"]))[0])
+
+
+def _ref_circuit(k, gates_, regs):
+    from qibo import Circuit, gates
+    c = Circuit(k)
+    for g in gates_:
+        c.add(build_gate(g))
+    for qs, nm in regs or []:
+        c.add(gates.M(*qs, register_name=nm))
+    return c
+
+
+def run_global_history(hist, timeout=30.0):
+    """returns (list of (key, what, op_index), number of executions).  Every observation of circuit() is compared with a
+    from-scratch reference built from the CURRENT abstract state (gate list with current parameters, registers)"""
+    import sys
+    import qibo
+    from qibo import Circuit, gates
+    from qibo.backends import _Global
+    from qibo.transpiler.pipeline import Passes
+    bad = []
+    nexec = 0
+    NSHOTS = 25
+    saved = (_Global._backend, _Global._transpiler)
+    orig_call = Passes.__call__
+    records = []
+
+    def rec_call(self_, c):
+        r = orig_call(self_, c)
+        records.append((self_, c, r))
+        return r
+
+    try:
+        Passes.__call__ = rec_call
+        _install_global(hist)
+        k, n = hist["k"], len(hist["nodes"])
+        circuit = Circuit(k, wire_names=list(hist["wire_names"]))
+        state_gates = [[g[0], list(g[1]), {kk: list(v) for kk, v in g[2].items()}] for g in hist["gates"]]
+        for g in state_gates:
+            circuit.add(build_gate(g))
+        names = list(hist["wire_names"])
+        regs = None
+        pl = hist.get("pipeline") or {"pre": True, "placer": None, "router": ["Sabre", {}], "natives": "hw"}
+        earlier = []
+        for oi, op in enumerate(hist["ops"]):
+            kind = op[0]
+            pidx = [i for i, g in enumerate(state_gates) if "p" in g[2]]
+            if kind == "set_parameters":
+                vals = op[1][:len(pidx)]
+                circuit.set_parameters([v[0] if len(v) == 1 else tuple(v) for v in vals])
+                for i, v in zip(pidx, vals):
+                    state_gates[i][2]["p"] = list(v)
+            elif kind == "gate_param":
+                circuit.parametrized_gates[op[1]].parameters = op[2][0] if len(op[2]) == 1 else tuple(op[2])
+                state_gates[pidx[op[1]]][2]["p"] = list(op[2])
+            elif kind == "add":
+                try:
+                    circuit.add(build_gate(op[1]))
+                except RuntimeError:      # documented refusal: the transpiler returned this very object and it was executed
+                    continue
+                state_gates.append([op[1][0], list(op[1][1]), {kk: list(v) for kk, v in op[1][2].items()}])
+            elif kind == "wire_names":
+                circuit.wire_names = None if op[1] is None else list(op[1])
+                names = list(range(k)) if op[1] is None else list(op[1])
+            elif kind == "measure":
+                try:
+                    circuit.add(gates.M(*op[1][0][0], register_name=op[1][0][1]))
+                except RuntimeError:
+                    continue
+                regs = op[1]
+                for qs, nm in regs[1:]:
+                    circuit.add(gates.M(*qs, register_name=nm))
+            elif kind == "set_transpiler":
+                pl = op[1]
+                qibo.set_transpiler(build_passes(dict(nodes=hist["nodes"], edges=hist["edges"], on_qubits=None, pipeline=pl))[0])
+            elif kind == "exec":
+                nexec += 1
+                pre = "global_exec:" if nexec == 1 else "global_reexec:"
+                del records[:]
+                try:
+                    result = R.with_timeout(timeout, lambda: circuit(nshots=NSHOTS))
+                except R.RouterTimeout:
+                    continue
+                except Exception as e:  # noqa
+                    key = "unroller_raises:magic_basis" if "magic basis" in str(e) else pre + "raises"
+                    bad.append((key, f"circuit() raised {type(e).__name__}: {e}", oi))
+                    break
+                psi = np.asarray(result.state())
+                nn = int(round(np.log2(psi.size)))
+                psi = psi.reshape((2,) * nn)
+                ref = _ref_circuit(k, state_gates, regs)
+                U = R.exact_operator([g for g in ref.queue if not isinstance(g, gates.M)], nn)
+                # the input circuit still is what the abstract state says (inputs are not mutated, updates went through)
+                canon = lambda c_: [(type(g).__name__, tuple(g.qubits), tuple(np.round(np.asarray(g.parameters, dtype=float).ravel(), 12)) if g.parameters and not isinstance(g, gates.M) else ())
+                                    for g in c_.queue]
+                if canon(circuit) != canon(ref):
+                    bad.append((pre + "mutates_input", "after circuit() the circuit's queue differs from the operations applied to it", oi))
+                if pl.get("placer") and k == n:
+                    names = list(circuit.wire_names)          # a placer renames a full-size input in place (documented)
+                elif list(circuit.wire_names) != names:
+                    bad.append((pre + "mutates_input", f"circuit() changed the circuit's wire names {names} -> {circuit.wire_names}", oi))
+                top = [r_ for r_ in records if r_[1] is circuit and r_[0] is _Global._transpiler]
+                if top:
+                    out, layout = top[-1][2]
+                    wn = list(out.wire_names)
+                    if not pl.get("placer") and wn[:k] != names:
+                        bad.append((pre + "padding", f"transpiled wire names {wn} do not start with the circuit's current wire names {names}", oi))
+                    if layout is None:
+                        l2p = list(range(out.nqubits))
+                    elif isinstance(layout, dict) and set(layout) == set(wn) and sorted(layout.values()) == list(range(out.nqubits)):
+                        l2p = [layout[w] for w in wn]
+                    else:
+                        bad.append((pre + "layout", f"final layout {layout} is not a bijection on {wn}", oi))
+                        l2p = None
+                    if l2p is not None and out.nqubits == nn:
+                        if not phase_equal(psi[..., None], R.permuted(U, l2p, nn)[..., :1], False):
+                            bad.append((pre + "state", "final state of circuit() is not P_layout.(padded reference state of the current gates / parameters) "
+                                        "up to a global phase (test, tolerance 1e-7)", oi))
+                    if hist["mode"] == "hwlike" and not _Global._transpiler.is_satisfied(out):
+                        bad.append((pre + "is_satisfied", "the default transpiler's is_satisfied rejects the circuit that was executed", oi))
+                else:
+                    # the global transpiler was not observed: layout-free check "some qubit permutation maps the reference state to the result"
+                    okp = nn <= 5 and any(phase_equal(psi[..., None], R.permuted(U, list(pm), nn)[..., :1], False)
+                                          for pm in itertools.permutations(range(nn)))
+                    if not okp:
+                        bad.append((pre + "state", "final state of circuit() is not a qubit permutation of the reference state of the current gates / parameters", oi))
+                if regs and not (hasattr(result, "frequencies") and hasattr(result, "measurements")):
+                    bad.append((pre + "registers", f"the circuit measures registers {[nm for _, nm in regs]} but circuit() returned a {type(result).__name__} without measurement outcomes", oi))
+                    earlier.append((oi, result, psi.copy(), None))
+                    continue
+                if regs:
+                    freqs = result.frequencies(registers=True)
+                    mg = {m.register_name: m for m in result.measurements}
+                    for qs, nm in regs:
+                        d_ref = register_distribution(U, nn, tuple(qs))
+                        if nm not in mg or nm not in freqs:
+                            bad.append((pre + "registers", f"register {nm} missing from the result", oi))
+                            continue
+                        d_out = register_distribution(psi[..., None], nn, tuple(mg[nm].qubits))
+                        if d_out.shape != d_ref.shape or not np.allclose(d_out, d_ref, atol=TOL):
+                            bad.append((pre + "outcomes", f"register {nm}: outcome distribution of the executed circuit differs from the untranspiled circuit's", oi))
+                            continue
+                        fr = dict(freqs[nm])
+                        flat = d_ref.reshape(-1)
+                        sup = {format(i, f"0{len(qs)}b") for i in range(flat.size) if flat[i] > 1e-9}
+                        if sum(fr.values()) != NSHOTS or not set(fr) <= sup:
+                            bad.append((pre + "frequencies", f"register {nm}: sampled outcomes {fr} outside the support {sorted(sup)} of the untranspiled circuit / wrong number of shots", oi))
+                earlier.append((oi, result, psi.copy(), {nm: dict(v) for nm, v in result.frequencies(registers=True).items()} if regs else None))
+        for oi, res, psi0, fr0 in earlier:
+            same = np.array_equal(np.asarray(res.state()).reshape(psi0.shape), psi0)
+            if fr0 is not None and hasattr(res, "frequencies"):
+                same = same and {nm: dict(v) for nm, v in res.frequencies(registers=True).items()} == fr0
+            if not same:
+                bad.append(("global_exec:earlier_result_changed", "a result object returned by an earlier circuit() changed during later operations", oi))
+                break
+    finally:
+        Passes.__call__ = orig_call
+        _Global._backend, _Global._transpiler = saved
+        sys.modules.pop(HW_MODULE, None)
+    return bad, nexec
+
+
+def global_transpiler_cases(run, found, stats, rng, only=None):
+    from qibo.backends import _Global
+    hists = [only] if only is not None else global_histories(run.tier, rng)
+    for hist in hists:
+        before = (_Global._backend, _Global._transpiler)
+        try:
+            bad, nexec = run_global_history(hist)
+        except Exception as e:  # noqa  (an observation the harness cannot even evaluate is reported with its history)
+            bad, nexec = [("global_exec:observation_error", f"observing the history failed with {type(e).__name__}: {e}", 0)], 0
+        if (_Global._backend, _Global._transpiler) != before:
+            found.setdefault("harness:global_state_not_restored", ("global backend / transpiler not restored", {"model_only": True}))
+        run.case(["global_history", hist], True)
+        stats["global_transpiler_histories"] = stats.get("global_transpiler_histories", 0) + 1
+        stats["executions_through_the_global_transpiler"] = stats.get("executions_through_the_global_transpiler", 0) + nexec
+        stats[f"global_mode:{hist['mode']}"] = stats.get(f"global_mode:{hist['mode']}", 0) + 1
+        for key, what, oi in bad:
+            stats["fail:" + key] = stats.get("fail:" + key, 0) + 1
+            found.setdefault(key, (what + f" [operation {oi} ({hist['ops'][oi][0]}) of a history on ONE circuit object executed through the global transpiler, mode {hist['mode']}]",
+                                   {"global_history": hist, "op_index": oi}))
+
+
 def restrict_cases(run, found, stats, rng):
     """restrict_connectivity_qubits on selections that must be refused (not device nodes / not
     connected / empty) and on random selections: model and implementation accept the same inputs"""
@@ -946,7 +1447,10 @@ def restrict_cases(run, found, stats, rng):
                                                        {"device": devname, "selection": sel, "model_only": True}))
 
 
-RULE = ("single calls and multi-call histories (ONE Passes object / the cached default transpiler called on 2-4 circuits in a row); cases = device (line/star/ring/grid/T, relabelled nodes) x optional on_qubits restriction x circuit on a "
+RULE = ("histories of operations (set_parameters / gate.parameters / add / wire_names / measure / set_transpiler) on ONE circuit executed "
+        "repeatedly through circuit() under a non-trivial global transpiler (hardware-like backend via the provider mechanism, or "
+        "qibo.set_transpiler), every observation compared with a from-scratch reference; every pipeline shape (with / without "
+        "Preprocessing, placer, router, unroller) with the returned final layout checked; single calls and multi-call histories (ONE Passes object / the cached default transpiler called on 2-4 circuits in a row); cases = device (line/star/ring/grid/T, relabelled nodes) x optional on_qubits restriction x circuit on a "
         "permuted subset of wire names (k <= device size) x placer {none, Random, Subgraph, ReverseTraversal, Star} x "
         "router {Sabre, ShortestPaths, Star} x native set {none (exact integer data), 6 sets}; non-trivial = the output "
         "differs from the input circuit (padding, renaming, SWAPs or unrolling happened); distinct = distinct spec")
@@ -961,10 +1465,17 @@ def main(run):
                     "NativeGates flag table (which classes are native) is read from the implementation"]
     run.assumptions += ["pipelines with an Unroller are compared up to a global phase with tolerance 1e-7: that part is a TEST, not a proof (irrational angles)",
                         "placers, the router and the unroller enter the composition theorem by contract; the contracts are checked on every real pass execution of this run",
-                        "termination of routers/placers is not claimed (timeouts)"]
+                        "termination of routers/placers is not claimed (timeouts)",
+                        "executions through the global transpiler are compared with the reference state / register distributions with tolerance 1e-7 (TEST); "
+                        "native sets of that stream contain RZ, Z, I (the unroller treats them as always native) and no CNOT-only set"]
     R.theorem_obligations(run, "C11/Props")
+    R.theorem_obligations(run, "C11/PropsLayout")   # router-less pipelines of any shape: final layout None, operator kept
     found, stats = {}, {}
-    cases = make_cases(run.tier, rng) + defect_cases(rng)
+    shape_cases = make_shape_cases(run.tier, rng)
+    stats["pipeline_shape_cases(no router / placer only / router only / unroller only / empty)"] = len(shape_cases)
+    attr_cases = make_attr_cases(run.tier, rng)
+    stats["attribute_history_cases(wire names set / reset / None, copy / deepcopy / add before transpiling)"] = len(attr_cases)
+    cases = make_cases(run.tier, rng) + defect_cases(rng) + shape_cases + attr_cases
     pending = []
     runs = [(devname, spec, run_pipeline(spec), None) for devname, spec in cases]
     for devname, hspec in make_histories(run.tier, rng) + make_device_histories(run.tier, rng):
@@ -1044,6 +1555,11 @@ def main(run):
                 found.setdefault("model:is_satisfied", ("is_satisfied model and implementation disagree", {"spec": spec, "model_only": True}))
             if pl.get("router") and lay is not None and list(lay) != info.get("l2p"):
                 found.setdefault("model:layout", (f"layout {lay} (model) vs {info.get('l2p')}", {"spec": spec, "model_only": True}))
+            if not pl.get("router"):
+                stats["router_less_layouts_compared_with_model"] = stats.get("router_less_layouts_compared_with_model", 0) + 1
+                if lay is not None or info.get("layout_norm") is not None:
+                    found.setdefault("model:layout_no_router", (f"router-less pipeline: final layout {lay} (model, proved None) vs {info.get('layout')} (implementation)",
+                                                                {"spec": spec}))
             if info.get("unroller_is_gatewise") is False:
                 found.setdefault("model:unroller", ("Unroller output is not the gate-wise translate_gate concatenation", {"spec": spec, "model_only": True}))
             if t["restrict"]:
@@ -1061,6 +1577,7 @@ def main(run):
                 if not perms_:
                     found.setdefault(f"placer_oracle:{kind_}", (f"{kind_} placer: a sampled layout / matcher mapping is not a bijection onto 0..n-1", {"spec": spec}))
     default_transpiler_cases(run, found, stats, rng)
+    global_transpiler_cases(run, found, stats, rng)
     restrict_cases(run, found, stats, rng)
     for key, (what, rp) in sorted(found.items()):
         run.find(key, what, rp, concrete=not rp.get("model_only", False))
@@ -1087,6 +1604,16 @@ def replay(run, data):
         if not anybad:
             print("replay: the recorded history passes now (", data.get("key"), ")")
         return run.finish(rule="replay of one recorded multi-call history")
+    if rp.get("global_history"):
+        found, stats = {}, {}
+        run.oblige("replay_executed", True, "replay")
+        global_transpiler_cases(run, found, stats, random.Random(0), only=rp["global_history"])
+        for key, (what, r2) in found.items():
+            print("replay reproduces:", key, what)
+            run.find(key, what, r2)
+        if not found:
+            print("replay: the recorded global-transpiler history passes now")
+        return run.finish(rule="replay of one recorded history of executions through the global transpiler")
     if rp.get("default_transpiler_history"):
         found, stats = {}, {}
         run.oblige("replay_executed", True, "replay")
